@@ -327,7 +327,8 @@ impl MqttState {
             if let Some(topic) = self.topic_alises.get(&alias) {
                 topic.clone_into(&mut publish.topic);
             } else {
-                self.handle_protocol_error()?;
+                // unknown alias: the DISCONNECT has to reach the network, nothing else is sent
+                return self.handle_protocol_error();
             };
         }
 
